@@ -4,7 +4,10 @@
    *queuedObjects of a model write, greq the *Request of a model batch (its ghost field b_ws has no
    counterpart).  A nil result is None. *)
 From Coq Require Import List NArith ZArith Bool Lia ZifyBool.
-From RQ Require Import Lib.GoLib Lib.GenTac Model.C24 Gen.Queue.
+From RQ Require Import Lib.GoLib.
+From RQ Require Import Lib.GenTac.
+From RQ Require Import Model.C24.
+From RQ Require Import Gen.Queue.
 Import ListNotations.
 Local Open Scope Z_scope.
 
@@ -20,7 +23,7 @@ Definition gen_merge (qs : list qwrite) : option (Request (option N) N) :=
 
 Lemma gen_mergeQueued_eq : forall qs, gen_merge qs = option_map greq (merge qs).
 Proof.
-  intros qs. unfold gen_merge, mergeQueued, merge, zlen. rewrite map_length.
+  intros qs. unfold gen_merge, mergeQueued, merge, zlen. aux. rewrite map_length.
   destruct qs as [|q0 qs0]; [reflexivity|].
   change (Z.of_nat (List.length (q0 :: qs0)) =? 0) with false. cbv iota.
   change (nth (Z.to_nat 0) (map gq (q0 :: qs0)) (zero_queuedObjects (option N) N None)) with (gq q0).
